@@ -1,6 +1,16 @@
 /* one concrete, standard-conforming Fortran edit descriptor per variant (CASE), left-justified in the blank-padded field;
  * EXP_N / EXP_W are the repeat count and the field width the descriptor means (an omitted repeat count means 1). */
+#if RB
+#define B(k) buf[k]
+#define NUM (*num)
+#define SIZE (*size)
+#define BUFOBJ buf
+#else
 #define B(k) in_buf[k]
+#define NUM in_num
+#define SIZE in_size
+#define BUFOBJ in_buf
+#endif
 #if CASE == 1   /* (1P,5E16.8) */
 #define DESCRIPTOR (B(0) == '(' && B(1) == '1' && B(2) == 'P' && B(3) == ',' && B(4) == '5' && B(5) == 'E' && B(6) == '1' && B(7) == '6' && B(8) == '.' && B(9) == '8' && B(10) == ')' && B(11) == ' ' && B(12) == ' ' && B(13) == ' ' && B(14) == ' ' && B(15) == ' ' && B(16) == ' ' && B(17) == ' ' && B(18) == ' ' && B(19) == ' ')
 #define EXP_N 5
